@@ -17,6 +17,16 @@ let int_of_z (x : z) : int = match x with Z0 -> 0 | Zpos p -> int_of_pos p | Zne
 let rec nat_of_int (i : int) : nat = if i <= 0 then O else S (nat_of_int (i - 1))
 let rec int_of_nat (x : nat) : int = match x with O -> 0 | S y -> 1 + int_of_nat y
 
+let string_of_z (x : z) : string =
+  String.concat "" (List.map (fun c -> String.make 1 (Char.chr (int_of_n c))) (dec_of_Z x))
+let z_of_string (t : string) : z =
+  let neg = String.length t > 0 && t.[0] = '-' in
+  let digits = if neg then String.sub t 1 (String.length t - 1) else t in
+  let ten = z_of_int 10 in
+  let acc = ref Z0 in
+  String.iter (fun ch -> acc := Z.add (Z.mul !acc ten) (z_of_int (Char.code ch - 48))) digits;
+  if neg then Z.opp !acc else !acc
+
 let str_of_body (b : string) : n list =
   if b = "" then [] else
   List.map (fun h -> n_of_int (int_of_string ("0x" ^ h))) (String.split_on_char '.' b)
@@ -30,14 +40,14 @@ let parse_v (t : string) : v =
   match t.[0] with
   | 's' -> VS (str_of_body body)
   | 'n' -> VN (n_of_int (int_of_string body))
-  | 'z' -> VZ (z_of_int (int_of_string body))
+  | 'z' -> VZ (z_of_string body)
   | 'b' -> VB (body = "1")
   | 'l' -> if body = "-" then VL [] else VL (List.map str_of_body (String.split_on_char ',' body))
   | _ -> failwith ("bad token " ^ t)
 
 let ps s = "s" ^ body_of_str s
 let pn x = "n" ^ string_of_int (int_of_n x)
-let pz x = "z" ^ string_of_int (int_of_z x)
+let pz x = "z" ^ string_of_z x
 let pb b = if b then "b1" else "b0"
 let pl l = if l = [] then "l-" else "l" ^ String.concat "," (List.map body_of_str l)
 let popt f o = match o with None -> "N" | Some x -> "S" ^ f x
@@ -77,6 +87,18 @@ let dispatch (f : string) (a : v list) : string =
   | "calc_parent_path", [VS p; VS v; VB rel] -> ps (calc_parent_path p v (if rel then RelativePaths else AbsolutePaths))
   | "orig_loc_parent_arg", [VS p] -> ps (orig_loc_parent_arg p)
   | "orig_loc_result", [VS p; VS pr; VS v; VB rel] -> ps (orig_loc_result p pr v (if rel then RelativePaths else AbsolutePaths))
+  | "fnmatchcase", [VS name; VS pat] -> pb (fnmatchcase name pat)
+  | "py_int", [VS t] -> popt pz (py_int t)
+  | "parse_indexes", [VS r; VZ n] ->
+      (match parse_indexes r n with
+       | Selected l -> "sel:" ^ String.concat "," (List.map (fun i -> string_of_int (int_of_z i)) l)
+       | InvalidEntry -> "invalid" | UncaughtValueError -> "valueerror")
+  | "matches_path", [VS o; VS p] -> pb (matches_path o p)
+  | "restore_scope", [VS c; VS a] -> ps (restore_scope c a)
+  | "parse_reply", [VS r] -> pb (parse_reply r)
+  | "parse_user_reply", [VS r] -> pb (parse_user_reply r)
+  | "older_than", [VZ d; VS now; VS del] -> popt pb (older_than d (parse_dt now) (parse_dt del))
+  | "dt_lt", [VS a; VS b] -> pb (dt_lt (parse_dt a) (parse_dt b))
   | _ -> failwith ("unknown function or arity: " ^ f)
 
 let () =
